@@ -12,6 +12,10 @@ RULE = ("seeded edit histories over a 3-letter name alphabet so that clashes are
         "braced, truncated and garbage ids; names/ids monitor after every op. distinct = distinct "
         "universe shape hashes reached after an op carrying a fault label")
 COMPONENTS = sessioncheck.COMPONENTS
+TECHNIQUE = 'SESSION: seeded search over edit histories on a 3-letter name alphabet; names/ids invariant monitor after every op'
+LEVEL_TEXT = "Seeded exploration of edit histories in which name clashes are frequent by construction (3-letter alphabet, state-directed clash ops, keep_id clones) and ids come from the quantifier's list of valid and malformed spellings; uniqueness, non-emptiness, id canonical form, name fallback and name lookup are checked after every operation."
+LEVEL_NOTE = 'Trusts uuid.UUID as the definition of a canonical id; bounded histories and universe.'
+DESIGN_REF = 'DESIGN.md 4 (C04)'
 ASSUMPTIONS = ["upper-case, braced and dash-less spellings are valid UUID inputs; the monitor accepts "
                "their canonical form", "universe bounded to 40 objects, histories to 40 ops"]
 
